@@ -272,10 +272,14 @@ def m_pathless_recreate(f, case, viol):
     ops = [u for u in user_ops(case) if u[1] == origin]
     cand = set()
     for i, u in enumerate(ops):
-        if u[2] == "delete" and any(v[2] == "create" and v[3] == u[3] for v in ops[i + 1:]):
-            cand.add(u[3])
+        if u[2] in ("delete", "rmtree", "rmdir"):
+            # the same id (= path) is used again by an object created later at the deleted path or below it (folder form found by
+            # the thorough soak: mkdir P, rmtree P, mkdir P)
+            for v in ops[i + 1:]:
+                if v[2] in ("create", "mkdir") and (v[3] == u[3] or v[3].startswith(u[3] + "/")):
+                    cand.add(v[3])
     paths = _diff_paths(viol)
-    return bool(paths) and all(_unconf(p) in cand for p in paths)
+    return bool(paths) and all(any(_unconf(p) == c or _unconf(p).startswith(c + "/") for c in cand) for p in paths)
 
 
 def m_request_stale_entry(f, case, viol):
